@@ -18,7 +18,9 @@ let rec nat_of_int n = if n <= 0 then O else S (nat_of_int (n - 1))
 let rec int_of_nat = function O -> 0 | S n -> 1 + int_of_nat n
 
 let big_fuel = nat_of_int 200000
-let a_ops = sVoxOps          (* voxels lifted with Status codes, first error wins *)
+(* voxels lifted with Status codes; argv[2] = the forwarding rule read from the source by the check:
+   "first" (pinned: the first errored operand's code) or "min" (the smallest code wins) *)
+let a_ops = if (try Sys.argv.(2) with _ -> "first") = "min" then sVoxOpsMin else sVoxOps
 let fdiv a b = if a >= 0 then a / b else - ((- a + b - 1) / b)   (* floor division, b > 0 *)
 let cdiv a b = - (fdiv (- a) b)
 
